@@ -39,6 +39,9 @@ double nondet_double(void);
 size_t vg_k, vg_k2;
 /* ghost lengths of C-string / buffer arguments (picked by harness) */
 size_t vg_n1, vg_n2, vg_n3;
+/* ghost instantiation point for "no NUL before n" facts, and the loop-exit offset a
+ * unit's annotation records (see DESIGN.md 2.2, manual quantifier instantiation) */
+size_t vg_j, vg_exit;
 
 /* anchor: identity re-basing of a pointer that walks inside one object.  The
  * identity is an obligation.  See DESIGN.md 2.1. */
@@ -235,7 +238,9 @@ char *strdup(const char *s)
     __CPROVER_assert(s != NULL, "strdup: argument not NULL");
     size_t n = strlen(s);
     char *r = malloc(n + 1);
-    memcpy(r, s, n + 1);
+    /* over-approximation: fresh block, arbitrary bytes, except terminator and ghost byte vg_k */
+    r[n] = 0;
+    if (vg_k < n) r[vg_k] = s[vg_k];
     return r;
 }
 #endif
